@@ -52,10 +52,13 @@ CHECKS = {
  "C19": ("model_checking",
          "systematic schedule exploration with iterative preemption bounding: Python-level baton scheduler over real threads for the curve registry, and a TSan-callback shim over the instrumented C code for native calls; plus exhaustive sequential interleavings and copy histories",
          "(1) all 20 interleavings x 7 third-object positions of two 3-step programs on 91 object pairs sharing a native module, and all copy() "
-         "histories to depth 4/5 on every class with copy(); (2) a monitor that caller-owned buffers, hash/XOF objects handed to signers and point "
-         "operands are unchanged; (3) concurrent first use of each of the nine curves by 2 and 3 real threads under a baton scheduler (scheduling "
-         "points: every line of the registry look-up and its lock), all schedules with <=2 preemptions; (4) the C sources compiled with "
-         "-fsanitize=thread run against a 300-line callback shim instead of the TSan runtime: for 53 native workloads the shared read/write sets of "
+         "histories to depth 4/5 on every class with copy(); (2) a monitor that caller-owned buffers (75 entry points), hash/XOF objects handed to signers and point "
+         "operands are unchanged, and that objects derived from a key (public_key()) share no state with it; (3) concurrent first use of each of the nine curves by 2 and 3 real threads under a baton scheduler (scheduling "
+         "points: every line of the registry look-up and its lock), all schedules with <=2 preemptions; (3b) the same scheduler over the library's "
+         "Python glue: 17 workloads (three integer back-ends, RSA/DSA/ECDSA/EdDSA signing, five AEAD modes, hashes, MACs, SP 800-185, KDFs, OAEP) "
+         "where two threads use objects of their own and EVERY line of the named library files is a scheduling point, all schedules with one "
+         "preemption (two where an execution has at most 100 (320) points); (4) the C sources compiled with "
+         "-fsanitize=thread run against a 300-line callback shim instead of the TSan runtime: for 59 native workloads (incl. one point object shared read-only by both threads as left and right operand) the shared read/write sets of "
          "two threads are measured (25 M classified accesses), workloads without write conflicts collapse to one Mazurkiewicz representative, the "
          "others are executed under every schedule with <=2 preemptions at the conflicting accesses. This reaches interleavings no test can pin.",
          "Trusted: the schedulers (mc/explore/pysched.py, mc/native/vsched.c). Sequential consistency assumed; races inside libc/libgmp invisible; "
